@@ -233,9 +233,37 @@ pub fn c12_timeout(ctx: &mut Ctx) {
     }
 }
 
+/// C12 "an unexpired timeout changes neither results nor progress": the same finite model with and without a one-hour
+/// timeout; the run with the timeout must finish with the same counts and not be slower by more than a generous margin
+/// (a timeout thread that sleeps while holding the market lock stalls every push / pop / split for a second at a time).
+pub fn c12_unexpired_timeout(ctx: &mut Ctx) {
+    use stateright::{Checker, Model};
+    use std::time::{Duration, Instant};
+    for strat in ["bfs", "dfs"] {
+        for threads in [1usize, 3] {
+            let case = format!("c12.timeout-unexpired:{}x{}", strat, threads);
+            if !ctx.want(&case) { continue; }
+            let m = Long { wide: true, limit: 1 << 14 }; // 32767 states: about 22 blocks of 1500
+            let run = |with_timeout: bool| {
+                let t0 = Instant::now();
+                let mut b = m.clone().checker().threads(threads);
+                if with_timeout { b = b.timeout(Duration::from_secs(3600)); }
+                let (u, t) = if strat == "bfs" { let c = b.spawn_bfs().join(); (c.unique_state_count(), c.state_count()) } else { let c = b.spawn_dfs().join(); (c.unique_state_count(), c.state_count()) };
+                (u, t, t0.elapsed())
+            };
+            let plain = run(false);
+            let timed = run(true);
+            let ok = plain.0 == timed.0 && timed.2 < plain.2 * 20 + Duration::from_secs(8);
+            ctx.check(&case, "c12-unexpired-timeout-changes-progress", &["JobBroker::new timeout thread (not under contract)"], ok,
+                format!("with a one-hour timeout: {} unique states in {:?}; without: {} in {:?}", timed.0, timed.2, plain.0, plain.2), "same counts, no stall".into());
+        }
+    }
+}
+
 pub fn c12(ctx: &mut Ctx) {
     c12_matches(ctx);
     c12_timeout(ctx);
+    c12_unexpired_timeout(ctx);
     for (gi, (n, inits, edges, bound)) in graphs(seed(), thorough()).into_iter().enumerate() {
         let g = mk(n, &inits, &edges, bound, vec![(Expectation::Sometimes, 0)]);
         let dist = g.dist();
